@@ -103,7 +103,10 @@ def step (d : DS) (l : String) : DS × String :=
       (d, listOut (d.h.entries.map (fun e => s!"{hx e.query}:{e.results}:{hx e.context}:{e.duration}")))
     | "pattern", [p] =>
       match Bytes.ofHex p with
-      | some p => (d, listOut ((byPattern d.h p).map (fun e => s!"{hx e.query}:{e.results}")))
+      | some p =>
+        -- runs of equal timestamps are printed sorted (the real sort is unstable)
+        let rs := runs (fun (e : Entry) => e.ts) (byPattern d.h p)
+        (d, listOut (rs.flatMap (fun r => sortStrings (r.map (fun e => s!"{hx e.query}:{e.results}")))))
       | none => (d, "bad-op")
     | "chrono", [] =>
       let ts := d.h.entries.map (·.ts)
